@@ -63,10 +63,17 @@ constexpr uint64_t SENTINEL = ~0ULL;
 inline uint64_t make_token(unsigned producer, uint64_t seq) { return (static_cast<uint64_t>(producer) << 40) | seq; }
 
 // wait until pred() or the watchdog (bounded progress) expires
+// Bounded progress, not a wall-clock deadline: the watchdog fires only when the predicate is false
+// AND the number of queue events (hook counters, updated under the queue's own lock) has not
+// changed for `seconds`.
 template <typename F> bool wait_for(F&& pred, int seconds = 30) {
-    const auto deadline = std::chrono::steady_clock::now() + std::chrono::seconds(seconds);
+    auto last_change = std::chrono::steady_clock::now();
+    uint64_t last_events = vhk::hs().pushes.load() + vhk::hs().pops.load() + vhk::hs().events.load();
     while (!pred()) {
-        if (std::chrono::steady_clock::now() > deadline) return false;
+        const uint64_t ev = vhk::hs().pushes.load() + vhk::hs().pops.load() + vhk::hs().events.load();
+        const auto now = std::chrono::steady_clock::now();
+        if (ev != last_events) { last_events = ev; last_change = now; }
+        else if (now - last_change > std::chrono::seconds(seconds)) return false;
         std::this_thread::sleep_for(std::chrono::milliseconds(1));
         vh::heartbeat();
     }
